@@ -52,9 +52,19 @@ func trackerSnippet(st trackerStep, self string) snippet.Snippet {
 		named := types.NewNamed(types.NewTypeName(token.NoPos, types.NewPackage(st.Path, lastSeg(st.Path)), "T", nil), types.NewStruct(nil, nil), nil)
 		return snippet.ID(types.Type(types.NewMap(types.Typ[types.String], types.NewPointer(named))))
 	case "generic":
+		if len(st.Path)%2 == 0 {
+			// the abstract names RawMessage / L are spelled with letters outside ASCII (Go identifiers are not ASCII-only);
+			// trackerAbstract spells them back before the text is logged
+			return snippet.ID(st.Path + ".G[encoding/json.\u00c9l\u00e9ment," + self + ".\u0141]")
+		}
 		return snippet.ID(st.Path + ".G[encoding/json.RawMessage," + self + ".L]")
 	}
 	panic("unknown tracker step kind " + st.Kind)
+}
+
+// trackerAbstract: the logged text in the specification's vocabulary (see the generic step of trackerSnippet).
+func trackerAbstract(text string) string {
+	return strings.NewReplacer("\u00c9l\u00e9ment", "RawMessage", "\u0141", "L").Replace(text)
 }
 
 func (trackerFam) Exec(c core.CaseIn, rng *rand.Rand, emit func(cas, conc, obs any)) error {
@@ -82,13 +92,13 @@ func (trackerFam) Exec(c core.CaseIn, rng *rand.Rand, emit func(cas, conc, obs a
 		pn = core.Try(func() {
 			buf.Reset()
 			sw.Render(trackerSnippet(st, tc.Self))
-			so.Text = buf.String()
+			so.Text = trackerAbstract(buf.String())
 			// asking twice yields the same name / text, and does not change the table
 			before := fmt.Sprint(tracker.Imports())
 			n1 := tracker.LocalNameOf(st.Path)
 			buf.Reset()
 			sw.Render(trackerSnippet(st, tc.Self))
-			so.AgainSame = buf.String() == so.Text && tracker.LocalNameOf(st.Path) == n1 && fmt.Sprint(tracker.Imports()) == before
+			so.AgainSame = trackerAbstract(buf.String()) == so.Text && tracker.LocalNameOf(st.Path) == n1 && fmt.Sprint(tracker.Imports()) == before
 			if p, ok := tracker.PathOf(n1); n1 != "" && (!ok || p != st.Path) {
 				so.AgainSame = false
 			}
